@@ -126,8 +126,31 @@ func (ex *Exec) siteCall(fr *Frame, instr ssa.CallInstruction, c *ssa.CallCommon
 	}
 	names := calleeNames(c)
 	for _, s := range specs {
-		if !contains(names, s.Target) {
+		target, ord := s.Target, 0
+		if i := strings.LastIndex(target, "#"); i > 0 {
+			fmt.Sscanf(target[i+1:], "%d", &ord)
+			target = target[:i]
+		}
+		if !contains(names, target) {
 			continue
+		}
+		if ord > 0 {
+			// only the ord-th call site of this callee in source order within its function
+			rank := 1
+			for _, b := range fr.fn.Blocks {
+				for _, other := range b.Instrs {
+					oc, ok := other.(ssa.CallInstruction)
+					if !ok || other == instr.(ssa.Instruction) {
+						continue
+					}
+					if contains(calleeNames(oc.Common()), target) && other.Pos() < instr.Pos() {
+						rank++
+					}
+				}
+			}
+			if rank != ord {
+				continue
+			}
 		}
 		vars := map[string]SVal{}
 		if c.IsInvoke() {
